@@ -26,6 +26,11 @@ pub struct Cfg {
     /// bodies often end with `Write k v; Remove k` (sometimes `…; Write k w`) on a pool key, which is usually
     /// already committed: the overwrite-then-delete shape a write cache can get wrong
     pub set_remove_bias: bool,
+    /// the code table is `wrapped_codes()` (the four default codes + two registered through
+    /// `ContractWrapper::new_with_empty(..).with_*_empty(..)`: about a third of the contracts run through
+    /// cw-multi-test's Empty-to-custom conversion of responses); the finished scenario is passed through
+    /// `sanitize_wrapped` (no custom sub-message in a program that can run on such a contract)
+    pub wrapped_codes: bool,
 }
 impl Default for Cfg {
     fn default() -> Self {
@@ -44,6 +49,7 @@ impl Default for Cfg {
             block_changes: true,
             probe_funds: false,
             set_remove_bias: false,
+            wrapped_codes: false,
         }
     }
 }
@@ -63,11 +69,29 @@ pub struct G<'a> {
 pub fn default_codes() -> Vec<CodeS> {
     let cr = user("creator");
     vec![
-        CodeS { id: 1, tag: 101, creator: cr.clone(), checksum: None, has_sudo: true, has_reply: true, has_migrate: true },
-        CodeS { id: 2, tag: 102, creator: cr.clone(), checksum: None, has_sudo: true, has_reply: true, has_migrate: false },
-        CodeS { id: 7, tag: 107, creator: user("alice"), checksum: Some((0..32).map(|i| (i * 7 + 1) as u8).collect()), has_sudo: false, has_reply: true, has_migrate: true },
-        CodeS { id: 9, tag: 109, creator: cr, checksum: None, has_sudo: true, has_reply: false, has_migrate: true },
+        CodeS { id: 1, tag: 101, creator: cr.clone(), checksum: None, has_sudo: true, has_reply: true, has_migrate: true, wrapped: false },
+        CodeS { id: 2, tag: 102, creator: cr.clone(), checksum: None, has_sudo: true, has_reply: true, has_migrate: false, wrapped: false },
+        CodeS { id: 7, tag: 107, creator: user("alice"), checksum: Some((0..32).map(|i| (i * 7 + 1) as u8).collect()), has_sudo: false, has_reply: true, has_migrate: true, wrapped: false },
+        CodeS { id: 9, tag: 109, creator: cr, checksum: None, has_sudo: true, has_reply: false, has_migrate: true, wrapped: false },
     ]
+}
+
+/// the code table under `Cfg::wrapped_codes`: the default codes + codes 4 and 5 of the wrapped-Empty flavour
+/// (`contract::wrapped`), interleaved so that `setup` (round robin over the table) always creates one
+pub fn wrapped_codes() -> Vec<CodeS> {
+    let d = default_codes();
+    let w4 = CodeS { id: 4, tag: 104, creator: user("creator"), checksum: None, has_sudo: true, has_reply: true, has_migrate: true, wrapped: true };
+    let w5 = CodeS {
+        id: 5,
+        tag: 105,
+        creator: user("bob"),
+        checksum: Some((0..32).map(|i| (i * 11 + 5) as u8).collect()),
+        has_sudo: false,
+        has_reply: true,
+        has_migrate: false,
+        wrapped: true,
+    };
+    vec![d[0].clone(), w4, d[1].clone(), d[2].clone(), w5, d[3].clone()]
 }
 
 pub const GOOD_KEYS: [&str; 6] = ["k", "key two", "a_b", "x", "é", "action"];
@@ -80,11 +104,11 @@ impl<'a> G<'a> {
         let users = vec![user("alice"), user("bob"), user("carol")];
         G {
             rng,
+            codes: if cfg.wrapped_codes { wrapped_codes() } else { default_codes() },
             cfg,
             next_node: 1,
             users,
             contracts: vec![],
-            codes: default_codes(),
             denoms: vec!["uatom".into(), "btc".into()],
             budget: 0,
             n_registered_guess: 0,
@@ -307,8 +331,8 @@ impl<'a> G<'a> {
             let ct = self.some_contract();
             match self.rng.below(3) {
                 0 => {
-                    let ids = [1u64, 2, 7, 9, 3];
-                    let new_code = *self.rng.pick(&ids);
+                    let ids: &[u64] = if self.cfg.wrapped_codes { &[1, 2, 7, 9, 3, 4, 5] } else { &[1, 2, 7, 9, 3] };
+                    let new_code = *self.rng.pick(ids);
                     Msg::Migrate { c: ct, new_code, p: self.prog(depth, true) }
                 }
                 1 => Msg::UpdateAdmin { c: ct, a: self.some_addr() },
@@ -385,8 +409,8 @@ impl<'a> G<'a> {
                 }
                 2 => {
                     let ct = self.some_contract();
-                    let ids = [1u64, 7, 9];
-                    let new_code = *self.rng.pick(&ids);
+                    let ids: &[u64] = if self.cfg.wrapped_codes { &[1, 7, 9, 4] } else { &[1, 7, 9] };
+                    let new_code = *self.rng.pick(ids);
                     TopOp::HelperMigrate { sender, c: ct, new_code, p: self.prog(1, true) }
                 }
                 _ => {
@@ -411,6 +435,161 @@ impl<'a> G<'a> {
             let op = self.top_op();
             steps.push(Step { block: b.clone(), op });
         }
-        Scenario { codes: self.codes.clone(), steps, users: self.users.clone() }
+        let mut sc = Scenario { codes: self.codes.clone(), steps, users: self.users.clone() };
+        if self.cfg.wrapped_codes {
+            sanitize_wrapped(&mut sc);
+        }
+        sc
     }
+}
+
+// ---------------------------------------------------------------------------------------------------------------
+// Wrapped-Empty codes cannot emit `CosmosMsg::Custom`.  A static, conservative analysis of which programs may run
+// on such a code: the code of a contract is that of its instantiation (the classic address determines it: wasmd's
+// address is a function of (code id, instance number)) unless a migration changed it.
+//   may_wrap(a)   = a is the classic address of a wrapped code (any instance number), or a is the target of some
+//                   `Migrate` to a wrapped code anywhere in the scenario, or a is neither a user nor a classic
+//                   address of any code (unknown: e.g. a salted address)
+//   Exec / sudo / migrate on a  : restricted iff may_wrap(a) (or the new code is wrapped)
+//   Inst of code k              : restricted iff k is wrapped, or some migration to a wrapped code targets a classic
+//                                 address of k or an unknown address
+//   reply handlers of a sub-message run on the emitter: restricted iff the emitting program is
+// In a restricted program every `Msg::Custom` sub-message is replaced by a bank message of the same outcome class.
+// ---------------------------------------------------------------------------------------------------------------
+struct WrapCtx {
+    wrapped_ids: Vec<u64>,
+    /// classic address -> code id
+    classic: std::collections::BTreeMap<String, u64>,
+    users: Vec<String>,
+    /// targets of migrations to a wrapped code
+    mig_targets: Vec<String>,
+}
+impl WrapCtx {
+    fn new(sc: &Scenario) -> Self {
+        let msgs = crate::print::all_msgs(sc);
+        let n_inst = msgs.iter().filter(|m| matches!(m, Msg::Inst { .. })).count() + sc.steps.iter().filter(|s| matches!(s.op, TopOp::HelperInst { .. })).count();
+        let mut classic = std::collections::BTreeMap::new();
+        for c in &sc.codes {
+            for i in 0..(n_inst as u64 + 8) {
+                classic.insert(classic_address(c.id, i), c.id);
+            }
+        }
+        let wrapped_ids: Vec<u64> = sc.codes.iter().filter(|c| c.wrapped).map(|c| c.id).collect();
+        let mut mig_targets = vec![];
+        for m in &msgs {
+            if let Msg::Migrate { c, new_code, .. } = m {
+                if wrapped_ids.contains(new_code) {
+                    mig_targets.push(c.clone());
+                }
+            }
+        }
+        for st in &sc.steps {
+            if let TopOp::HelperMigrate { c, new_code, .. } = &st.op {
+                if wrapped_ids.contains(new_code) {
+                    mig_targets.push(c.clone());
+                }
+            }
+        }
+        WrapCtx { wrapped_ids, classic, users: sc.users.clone(), mig_targets }
+    }
+    fn unknown(&self, a: &str) -> bool {
+        !self.users.iter().any(|u| u == a) && !self.classic.contains_key(a)
+    }
+    fn may_wrap(&self, a: &str) -> bool {
+        match self.classic.get(a) {
+            Some(id) if self.wrapped_ids.contains(id) => true,
+            _ => self.unknown(a) || self.mig_targets.iter().any(|t| t == a),
+        }
+    }
+    fn inst_may_wrap(&self, code_id: u64) -> bool {
+        self.wrapped_ids.contains(&code_id) || self.mig_targets.iter().any(|t| self.unknown(t) || self.classic.get(t) == Some(&code_id))
+    }
+    /// returns the number of custom sub-messages found in restricted programs (replaced when `fix`)
+    fn prog(&self, p: &mut Prog, restricted: bool, fix: bool) -> usize {
+        let mut n = 0;
+        if let Output::Resp { subs, .. } = &mut p.out {
+            for s in subs.iter_mut() {
+                if restricted {
+                    if let Msg::Custom { ok, tag } = *s.m {
+                        n += 1;
+                        if fix {
+                            *s.m = if ok {
+                                Msg::BankSend { to: self.users[(tag % self.users.len() as u64) as usize].clone(), amt: vec![CoinS { denom: "uatom".into(), amount: (tag % 3) as u128 }] }
+                            } else {
+                                Msg::BankBurn { amt: vec![CoinS { denom: "btc".into(), amount: 1_000_000 + tag as u128 }] }
+                            };
+                        }
+                    }
+                }
+                n += self.msg(&mut s.m, fix);
+                n += self.prog(&mut s.on_ok, restricted, fix);
+                n += self.prog(&mut s.on_err, restricted, fix);
+            }
+        }
+        n
+    }
+    fn msg(&self, m: &mut Msg, fix: bool) -> usize {
+        match m {
+            Msg::Exec { c, p, .. } => {
+                let r = self.may_wrap(c);
+                self.prog(p, r, fix)
+            }
+            Msg::Inst { code_id, p, .. } => {
+                let r = self.inst_may_wrap(*code_id);
+                self.prog(p, r, fix)
+            }
+            Msg::Migrate { c, new_code, p } => {
+                let r = self.may_wrap(c) || self.wrapped_ids.contains(new_code);
+                self.prog(p, r, fix)
+            }
+            _ => 0,
+        }
+    }
+    fn scenario(&self, sc: &mut Scenario, fix: bool) -> usize {
+        let mut n = 0;
+        for st in sc.steps.iter_mut() {
+            n += match &mut st.op {
+                TopOp::ExecMulti { ms, .. } => ms.iter_mut().map(|m| self.msg(m, fix)).sum(),
+                TopOp::Exec { m, .. } => self.msg(m, fix),
+                TopOp::WasmSudo { c, p } | TopOp::HelperExec { c, p, .. } => {
+                    let r = self.may_wrap(c);
+                    self.prog(p, r, fix)
+                }
+                TopOp::HelperMigrate { c, new_code, p, .. } => {
+                    let r = self.may_wrap(c) || self.wrapped_ids.contains(new_code);
+                    self.prog(p, r, fix)
+                }
+                TopOp::HelperInst { code_id, p, .. } => {
+                    let r = self.inst_may_wrap(*code_id);
+                    self.prog(p, r, fix)
+                }
+                TopOp::Mint { .. } | TopOp::HelperSend { .. } => 0,
+            };
+        }
+        n
+    }
+}
+
+/// number of custom sub-messages in programs that may run on a wrapped-Empty code (0 for a sanitized scenario)
+pub fn wrapped_violations(sc: &Scenario) -> usize {
+    WrapCtx::new(sc).scenario(&mut sc.clone(), false)
+}
+
+/// replace them; afterwards assert that none is left and that the wrapper's own decoder
+/// (`cosmwasm_std::from_json`, not the `serde_json` of `Scripted`) reads every top-level program back unchanged
+pub fn sanitize_wrapped(sc: &mut Scenario) -> usize {
+    let n = WrapCtx::new(sc).scenario(sc, true);
+    assert_eq!(wrapped_violations(sc), 0, "sanitize_wrapped left a custom sub-message in a program that may run on a wrapped-Empty code");
+    for st in &sc.steps {
+        let p = match &st.op {
+            TopOp::WasmSudo { p, .. } | TopOp::HelperInst { p, .. } | TopOp::HelperExec { p, .. } | TopOp::HelperMigrate { p, .. } => Some(p),
+            TopOp::Exec { m: Msg::Exec { p, .. } | Msg::Inst { p, .. } | Msg::Migrate { p, .. }, .. } => Some(p),
+            _ => None,
+        };
+        if let Some(p) = p {
+            let back: Prog = cosmwasm_std::from_json(cosmwasm_std::to_json_vec(p).unwrap()).expect("the wrapper's decoder refuses a generated program");
+            assert_eq!(&back, p, "the wrapper's decoder reads a generated program differently");
+        }
+    }
+    n
 }
